@@ -76,6 +76,25 @@ func CatInit(table, op, i int, seed int64, allD bool) *InitSpec {
 		is.Dev = DevDesc{Kind: "const", Val: dv, Len: 65536}
 	}
 	is.IO = IODesc{Kind: "hash", Seed: (i * 17) % 97}
+	switch i % 7 {
+	case 5: // no port device attached
+		is.IO = IODesc{Kind: "nil"}
+	case 3: // the bundled array device
+		is.IO = IODesc{Kind: "dumb", Len: []int{256, 1, 128}[(i/7)%3]}
+		is.IOCells = dedupe([][2]int{{0, 0xa5}, {(i * 29) & 0xff, 0x80}, {s[3], 0x5a}})
+	}
+	switch i % 5 { // which notification handlers the host installed
+	case 1:
+		is.NoHN = true
+	case 2:
+		is.NoHI = true
+	case 4:
+		is.NoHN, is.NoHI = i%2 == 0, i%2 == 0
+	}
+	// a maskable request is pending and masked (IFF1 = 0 for these i): the instruction executes as if there were none
+	if i%8 == 6 || i%16 == 4 {
+		is.Pend = []int{1, 0xff - (i & 0x38)}
+	}
 	imm := []int{0x0000, 0x1234, 0xffff, pc, (pc + 2) & 0xffff, s[20], (s[20] - 1) & 0xffff, 0x5aa5}[(i*3+1)%8]
 	var cells [][2]int
 	for k, b := range EncBytes(table, op, d, imm&255, imm>>8) {
@@ -657,6 +676,13 @@ func blockInit(r *rand.Rand, op int, cnt int, hl, de, pc int, a int) *InitSpec {
 	is.R[20] = 0x7000
 	is.Dev = DevDesc{Kind: "hash", Seed: r.Intn(1000), Len: 65536}
 	is.IO = IODesc{Kind: "hash", Seed: r.Intn(1000)}
+	switch r.Intn(6) {
+	case 0: // no port device attached
+		is.IO = IODesc{Kind: "nil"}
+	case 1:
+		is.IO = IODesc{Kind: "dumb", Len: []int{0, 1, 128, 256}[r.Intn(4)]}
+		is.IOCells = dedupe([][2]int{{r.Intn(256), r.Intn(256)}, {is.R[3], r.Intn(256)}})
+	}
 	is.Cells = [][2]int{{pc, 0xed}, {(pc + 1) & 0xffff, op}}
 	return is
 }
@@ -819,7 +845,13 @@ func cmdBare1(args []string) {
 	n := fs.Int("n", 600, "Steps per shard")
 	seed := fs.Int64("seed", 1, "seed")
 	ctl := fs.Bool("ctl", false, "only jumps, calls, returns, RST, PUSH/POP, JP (rr): operands and stack words on the memory's end")
+	words := fs.Bool("words", false, "only instructions that read or write a 16-bit word in memory; SP and nn always on the memory's end")
 	fs.Parse(args)
+	wordOps := []int{0x22, 0x2a, 0xe3, 0xcd, 0xc9, 0xc7, 0xff, 0xc5, 0xd5, 0xe5, 0xf5, 0xc1, 0xd1, 0xe1, 0xf1,
+		2*256 + 0x43, 2*256 + 0x4b, 2*256 + 0x53, 2*256 + 0x5b, 2*256 + 0x63, 2*256 + 0x6b, 2*256 + 0x73, 2*256 + 0x7b,
+		2*256 + 0x45, 2*256 + 0x4d, 2*256 + 0x55, 2*256 + 0x5d,
+		3*256 + 0x22, 3*256 + 0x2a, 3*256 + 0xe3, 3*256 + 0xe5, 3*256 + 0xe1,
+		4*256 + 0x22, 4*256 + 0x2a, 4*256 + 0xe3, 4*256 + 0xe5, 4*256 + 0xe1}
 	ctlOps := []int{0xc3, 0xcd, 0xc9, 0x18, 0x10, 0xe9, 0xc5, 0xd5, 0xe5, 0xf5, 0xc1, 0xd1, 0xe1, 0xf1}
 	for y := 0; y < 8; y++ {
 		ctlOps = append(ctlOps, 0xc2+y*8, 0xc4+y*8, 0xc0+y*8, 0xc7+y*8)
@@ -839,6 +871,9 @@ func cmdBare1(args []string) {
 					k = []int{3*256 + 0xe9, 4*256 + 0xe9, 3*256 + 0xe5, 4*256 + 0xe1, 2*256 + 0x45, 2*256 + 0x4d}[r.Intn(6)]
 				}
 			}
+			if *words {
+				k = wordOps[(i+sh*7)%len(wordOps)]
+			}
 			is := RandInit(r, k/256, k%256)
 			is.Pend = []int{}
 			is.Bare = true
@@ -846,6 +881,9 @@ func cmdBare1(args []string) {
 			switch i % 4 {
 			case 0, 1:
 				L = lens[r.Intn(len(lens))]
+				if *words && i%8 < 4 {
+					L = 65536
+				}
 				is.Dev = DevDesc{Kind: "dumb", Len: L}
 			case 2:
 				is.Dev = DevDesc{Kind: "map", Val: 0xc7, Len: 65536}
@@ -869,7 +907,7 @@ func cmdBare1(args []string) {
 			edge := func() int { return (L - 2 + r.Intn(4)) & 0xffff }
 			old := is.R[21]
 			is.R[21] = pc
-			if r.Intn(2) == 0 {
+			if r.Intn(2) == 0 || *words {
 				is.R[20] = edge() // SP
 			}
 			if r.Intn(2) == 0 {
@@ -888,7 +926,7 @@ func cmdBare1(args []string) {
 					cells = append(cells, [2]int{(pc + int(d)) & 0xffff, c[1]})
 				}
 			}
-			if r.Intn(2) == 0 && len(cells) >= 3 { // immediate word aimed at the edge (LD (nn),rr etc.)
+			if (r.Intn(2) == 0 || *words) && len(cells) >= 3 { // immediate word aimed at the edge (LD (nn),rr etc.)
 				v := edge()
 				tbl := k / 256
 				off := 1
@@ -904,7 +942,7 @@ func cmdBare1(args []string) {
 					}
 				}
 			}
-			if r.Intn(4) == 0 {
+			if r.Intn(4) == 0 && !*words {
 				is.Pend = [][]int{{0}, {1}, {1, 0xff}, {1, r.Intn(256)}}[r.Intn(4)]
 				is.R[24] = 1
 			}
